@@ -354,7 +354,7 @@ func initializeCipherSuite(
 				certAlgs = cfg.LocalSignatureSchemes
 			}
 			chains, err = dtlscrypto.VerifyServerCert(
-				state.PeerCertificates, cfg.RootCAs, cfg.ServerName, certAlgs,
+				state.PeerCertificates, cfg.RootCAs, cfg.ServerNameToVerify(), certAlgs,
 			)
 			if err != nil {
 				return &alert.Alert{Level: alert.Fatal, Description: alert.BadCertificate}, err
